@@ -78,6 +78,7 @@ struct VFd {
   std::deque<int> send_windows;  // per-send acceptance (TCP); 0 => EAGAIN; empty => unlimited
   bool default_chunking = false; int chunk_seed = 0;  // profile-driven chunking
   int n_send_ok = 0;          // datagrams / send calls accepted
+  int n_send_calls = 0;       // send calls attempted (including failed ones)
   int n_calls_after_close = 0;
   int close_count = 0;
   // pipe
